@@ -88,7 +88,7 @@ Check(r) ==
     \* ---- drift
     \cup (IF (outOk /\ Injected(op) /\ e.out = "panic") => o.bytes = enc THEN {} ELSE {"d_retain"})
     \cup (IF (outOk /\ Leaked(op) /\ e.out = "ok") => o.bytes = enc THEN {} ELSE {"d_forget"})
-    \cup (IF (outOk /\ fixedCap) => (o.cap = e.cap /\ (op.name = "split_off" => o.xcap = e.xcap))
+    \cup (IF (outOk /\ fixedCap /\ ~o.gone) => (o.cap = e.cap /\ (op.name = "split_off" => o.xcap = e.xcap))
           THEN {} ELSE {"d_cap"})
     \* ---- tooling
     \cup (IF (IsCtor(op) \/ (r.pre.chars = r.m.pre.chars /\ CapOf(r, r.pre.cap) = r.m.pre.cap))
